@@ -294,13 +294,14 @@ int main(int argc, char **argv) {
   if (mode == "restart") {
     for (long i = 0; i < N; i++) {
       RunCfg c{1 + (int)r.below(3), 2 + (int)r.below(7), 1, 1000, -1, -1};
-      c.restart = true; c.failRule = r.coin(1, 3);
+      if (r.coin(1, 3)) c.P = 3;          // bystander scenarios need a third process
+      c.restart = true; c.failRule = r.coin(1, 2);
       for (int p = 0; p < c.P; p++) {
         c.pcache.push_back(1 + (int)r.below(3));
         c.pmax.push_back(r.coin(1, 4) ? 1 + (int)r.below(3) : 1000);
-        c.ppat.push_back(r.coin(1, 3) ? 0 : 1 + (int)r.below(4));
+        { static const int pats[] = {1, 2, 2, 3, 3, 4}; c.ppat.push_back(r.coin(1, 3) ? 0 : pats[r.below(6)]); }
       }
-      for (int j = 0; j < c.J; j++) c.hist.push_back(r.coin(1, 3) ? 0 : 1 + (int)r.below(4));
+      { static const int kinds[] = {1, 2, 3, 4, 4, 4}; for (int j = 0; j < c.J; j++) c.hist.push_back(r.coin(1, 3) ? 0 : kinds[r.below(6)]); }
       printf("%s\n", run_once(c, r).c_str());
       fflush(stdout);
     }
